@@ -11,7 +11,7 @@ GEN_MODULES = ['Quota']
 REQUIRED = ['getNBest_tie', 'getNBest_fits', 'getNBest_everyone', 'getNBest_length', 'aboveSorted_desc',
             'mem_aboveSorted', 'strictly_above_elected', 'level_all_elected', 'not_above_not_elected_in_tie',
             'below_never_elected', 'getNBest_strictMono_map', 'plurality_eq', 'quotaSelector_ok']
-REQUIRED_COUNTERS = ['boundary_tie', 'level_fits', 'negative_value', 'all_elected', 'fraction', 'decimal', 'quota_selector']
+REQUIRED_COUNTERS = ['sorted_votes', 'boundary_tie', 'level_fits', 'negative_value', 'all_elected', 'fraction', 'decimal', 'quota_selector']
 RULE = ('1-8 candidates, values from tie-forcing small sets (incl. negatives/zero), Fractions, Decimals and integers up to '
         '10^30; n from 1 to len+2; ops get_n_best, plurality, quota_selector(select/error). Non-trivial = at least two '
         'candidates and a result that is not an error; distinct by canonical request.')
@@ -60,7 +60,9 @@ def generate(rng, tier):
             vals = [Fraction(v) if rng.random() < 0.5 else v for v in vals]
         n = rng.randint(1, m + 2)
         r = rng.random()
-        if r < 0.6:
+        if r < 0.15:
+            yield _mk('sorted_votes', vals, n, ['sorted_votes'], desc=rng.random() < 0.5)
+        elif r < 0.6:
             yield _mk(rng.choice(['get_n_best', 'plurality']), vals, n, [])
         else:
             vals = [abs(v) for v in vals]
@@ -107,6 +109,9 @@ def impl(case):
     n = case['n']
     if case['op'] == 'get_n_best':
         return guarded(lambda: enc_selection(vcore.get_n_best(votes, n), NAMES))
+    if case['op'] == 'sorted_votes':
+        import votelib.util
+        return guarded(lambda: [[NAMES.i(c), num_str(v)] for c, v in votelib.util.sorted_votes(votes, case['desc'])])
     if case['op'] == 'plurality':
         return guarded(lambda: enc_selection(vcore.Plurality().evaluate(votes, n), NAMES))
     if case['op'] == 'quota_selector':
@@ -164,6 +169,11 @@ def _oracle_nbest(vals, n, res):
 def oracle(case, obs):
     vals = {i: Fraction(s) for i, s in case['votes']}
     n = case['n']
+    if case['op'] == 'sorted_votes':
+        # stable sort of the items by value
+        exp = sorted(case['votes'], key=lambda p: Fraction(p[1]), reverse=case['desc'])
+        got = [[c, Fraction(v)] for c, v in obs] if not isinstance(obs, dict) else obs
+        return [] if got == [[c, Fraction(v)] for c, v in exp] else [('sorted_votes_stable', str(obs))]
     if case['op'] in ('get_n_best', 'plurality'):
         return _oracle_nbest(vals, n, obs)
     if case['op'] == 'quota_selector':
@@ -226,7 +236,7 @@ def generate(rng, tier):     # noqa
     for c in _gen(rng, tier):
         vals = {i: Fraction(s) for i, s in c['votes']}
         n = c['n']
-        if c['op'] != 'quota_selector':
+        if c['op'] not in ('quota_selector', 'sorted_votes'):
             if len(vals) <= n:
                 c['_tags'].append('all_elected')
             else:
